@@ -298,6 +298,14 @@ func RunParent(id, tier string, seed int64, onlyBatch, onlyCase int) int {
 			}
 		}
 		merged.Notes = append(merged.Notes, r.Notes...)
+		if len(r.Violations) == 0 && os.Getenv("VERIF_KEEP_LOGS") == "" {
+			// a batch that ended cleanly: its journal (every case, written before it ran) is only
+			// needed when the child dies; keep small ones, drop the big ones (disk is limited)
+			jf := filepath.Join(outDir, fmt.Sprintf("batch-%03d.journal", o.batch))
+			if fi, err := os.Stat(jf); err == nil && fi.Size() > 1<<20 {
+				os.Remove(jf)
+			}
+		}
 		for _, v := range r.Violations {
 			if v.Detail == nil {
 				v.Detail = map[string]interface{}{}
